@@ -607,6 +607,25 @@ def rule_zero_events(ck):
         ck.extra.setdefault('extremum_reductions_in_simulators', {})[f.short] = n
 
 
+def rule_injected_used(ck):
+    """D1.injected: whether a simulation uses injected numbers is decided by `random_numbers is None`, not by whether taking row `idx`
+    raised: a handler that falls back to drawing from the global generator (too few rows, a 1-d array, a list) makes the result depend
+    on the state of that generator although numbers were injected"""
+    P = ck.prog
+    ck.clause('D1')
+    for tq in KERNEL_TESTS:
+        t = P.func(tq)
+        o = ck.ob('C06-D1.injected', t, 'injected numbers are used for every simulation or refused', t.node)
+        bad = []
+        for h in [x for x in all_nodes(t) if isinstance(x, ast.ExceptHandler)]:
+            if any((isinstance(a_, ast.Assign) and const_value(a_.value) is None) or
+                   (isinstance(a_, ast.Call) and (callee(P, t, a_) or '').endswith('_simulate_catalog')) for s_ in h.body for a_ in ast.walk(s_)):
+                bad.append(h)
+        (o.fail('`except %s` in %s falls back to numbers drawn from the global generator when the injected ones cannot be taken: the result is '
+                'then no function of forecast, catalog and the injected numbers' % (u(bad[0].type) if bad[0].type is not None else '', t.short))
+         if bad else o.ok())
+
+
 def rule_precision(ck):
     """D4.double: the cumulative weights are built from the rates in the precision they were supplied in: an interval boundary F_k
     rounded to float32 moves by up to 6e-8 F_k, so a uniform number next to it is placed in the neighbouring bin"""
@@ -625,5 +644,5 @@ def rule_rates_view(ck):
     c11.rule_axes(ck)
 
 
-RULES = [rule_seed, rule_rng_sources, rule_sampling, rule_weights, rule_reset, rule_event_numbers, rule_quantile, rule_catalog_seeded, rule_precision,
+RULES = [rule_injected_used, rule_seed, rule_rng_sources, rule_sampling, rule_weights, rule_reset, rule_event_numbers, rule_quantile, rule_catalog_seeded, rule_precision,
          rule_rates_view, rule_zero_events]
